@@ -473,28 +473,22 @@ func runC20(c *Ctx, r *Report) {
 			return ""
 		}
 		gf.Edge = func(cond ast.Expr, taken bool, f Facts) {
-			// conjunctive atoms
-			for _, a := range splitCond(cond, taken) {
-				if k := indicator(a); k != "" {
-					f["getFailed|"+k] = true
+			// however the condition is spelled (`a || b`, `!(c && d)`, nested): every alternative under which
+			// this edge is taken must contain a failure indicator for the same id
+			alts := dnfCond(cond, taken)
+			count := map[string]int{}
+			for _, alt := range alts {
+				seen := map[string]bool{}
+				for _, a := range alt {
+					if k := indicator(a); k != "" && !seen[k] {
+						seen[k] = true
+						count[k]++
+					}
 				}
 			}
-			// a disjunction taken true: every disjunct must be an indicator for the same id
-			if taken {
-				ds := orDisjuncts(cond)
-				if len(ds) > 1 {
-					key := ""
-					all := true
-					for _, d := range ds {
-						k := indicator(condAtom{d, true})
-						if k == "" || (key != "" && k != key) {
-							all = false
-						}
-						key = k
-					}
-					if all && key != "" {
-						f["getFailed|"+key] = true
-					}
+			for k, n := range count {
+				if n == len(alts) {
+					f["getFailed|"+k] = true
 				}
 			}
 		}
@@ -887,6 +881,12 @@ func hasKeyPolarity(c *Ctx, r *Report) {
 	}
 	hf.Edge = func(cond ast.Expr, taken bool, f Facts) {
 		for _, a := range splitCond(cond, taken) {
+			// a boolean local assigned once (`found := value != nil`) stands for its defining expression
+			if id, ok := ast.Unparen(a.E).(*ast.Ident); ok && !flag[p.ObjOf(hk, id)] && !answer[p.ObjOf(hk, id)] {
+				if def := p.SoleDef(hk, p.ObjOf(hk, id)); def != nil {
+					a = condAtom{E: def, Truth: a.Truth}
+				}
+			}
 			if id, ok := ast.Unparen(a.E).(*ast.Ident); ok && flag[p.ObjOf(hk, id)] {
 				if a.Truth {
 					f["found"] = true
@@ -924,6 +924,11 @@ func hasKeyPolarity(c *Ctx, r *Report) {
 		}
 		nret++
 		res := ast.Unparen(ret.Results[0])
+		if id, isID := res.(*ast.Ident); isID && !flag[p.ObjOf(hk, id)] && !answer[p.ObjOf(hk, id)] {
+			if def := p.SoleDef(hk, p.ObjOf(hk, id)); def != nil {
+				res = ast.Unparen(def)
+			}
+		}
 		ok, why := false, ""
 		switch x := res.(type) {
 		case *ast.Ident:
